@@ -3,7 +3,7 @@
 import sys
 sys.path.insert(0, '/verif')
 from vf.props import c05
-c05.MAXB, c05.MAXD = 3, 2
-bad, text, skipped, decisions = c05.replay([0, 0, 5, 4, 0, -1, -1, 0, 0, 0, 0, 0, 0, 0])
+c05.MAXB, c05.MAXD = 2, 2
+bad, text, skipped, decisions = c05.replay([4, 0, 0, -1, 0, 0, 0, 0, 0, 0, 0, 0, 0, 0, 0])
 print(text); print('skipped blocks', skipped, 'decisions', decisions); print('->', bad)
 sys.exit(1 if bad else 0)
